@@ -1002,6 +1002,64 @@ func (*Thread).readUint32
   ensures val: ret == old(((ins(vm.bytecode, ipOff(vm)) * 256 + ins(vm.bytecode, ipOff(vm) + 1)) * 256 + ins(vm.bytecode, ipOff(vm) + 2)) * 256 + ins(vm.bytecode, ipOff(vm) + 3))
   ensures ip: vm.ip == old(vm.ip) + 4 && vm.bytecode == old(vm.bytecode)
 
+// ==== exception tables and abort checks (C14, C33) ==========================================
+// A catch entry covers the instruction pointer when From < ip <= To.  Looking up a `finally`
+// handler returns the FIRST entry of the function's table, in table order, that is a finally
+// entry and covers ip (the compiler registers inner handlers before outer ones), nil iff there
+// is none; jumping to it sets ip to the entry's jump address (+4 for break/continue: the
+// handler starts with NIL, JUMP hi lo, which those two skip).
+spec fn covers(e *CatchEntry, ip int, fin bool) bool = e.Finally == fin && ip > e.From && ip <= e.To
+spec fn wfCatch(b *BytecodeFunction) bool = b != nil && len(b.Instructions) >= 1 && sliceptr(b.Instructions) > 0 && (forall k int :: 0 <= k && k < len(b.CatchEntries) ==> elem(b.CatchEntries, k) != nil)
+
+func (*Thread).ipOffset
+  props C14 C29
+  requires vm != nil && vm.bytecode != nil && len(vm.bytecode.Instructions) >= 1
+  assigns nothing
+  ensures ret == wrapS64(vm.ip - sliceptr(vm.bytecode.Instructions))
+
+func (*Thread).ipSetOffset
+  props C14 C29
+  requires vm != nil && vm.bytecode != nil && len(vm.bytecode.Instructions) >= 1
+  assigns vm.ip
+  ensures vm.ip == wrapU64(sliceptr(vm.bytecode.Instructions) + offset)
+
+func (*Thread).findFinallyCatchEntry
+  props C14
+  requires vm != nil && wfCatch(vm.bytecode) && ipOff(vm) >= 0 && ipOff(vm) <= len(vm.bytecode.Instructions)
+  assigns nothing
+  ensures none: ret == nil <==> (forall k int :: 0 <= k && k < len(vm.bytecode.CatchEntries) ==> !covers(elem(vm.bytecode.CatchEntries, k), ipOff(vm), true))
+  ensures first: ret != nil ==> exists k int :: 0 <= k && k < len(vm.bytecode.CatchEntries) && elem(vm.bytecode.CatchEntries, k) == ret && covers(ret, ipOff(vm), true) && (forall j int :: 0 <= j && j < k ==> !covers(elem(vm.bytecode.CatchEntries, j), ipOff(vm), true))
+  loop 1
+    invariant ipIndex == ipOff(vm)
+    invariant forall j int :: 0 <= j && j < range_idx ==> !covers(elem(vm.bytecode.CatchEntries, j), ipOff(vm), true)
+    decreases len(vm.bytecode.CatchEntries) - range_idx
+
+func (*Thread).jumpToFinallyForReturn
+  props C14
+  requires vm != nil && wfCatch(vm.bytecode) && ipOff(vm) >= 0 && ipOff(vm) <= len(vm.bytecode.Instructions)
+  assigns vm.ip
+  ensures none: !ret <==> (forall k int :: 0 <= k && k < len(vm.bytecode.CatchEntries) ==> !covers(elem(vm.bytecode.CatchEntries, k), old(ipOff(vm)), true))
+  ensures jump: ret ==> exists k int :: 0 <= k && k < len(vm.bytecode.CatchEntries) && covers(elem(vm.bytecode.CatchEntries, k), old(ipOff(vm)), true) && (forall j int :: 0 <= j && j < k ==> !covers(elem(vm.bytecode.CatchEntries, j), old(ipOff(vm)), true)) && vm.ip == wrapU64(sliceptr(vm.bytecode.Instructions) + elem(vm.bytecode.CatchEntries, k).JumpAddress)
+  ensures stay: !ret ==> vm.ip == old(vm.ip)
+
+func (*Thread).jumpToFinallyForBreakOrContinue
+  props C14
+  requires vm != nil && wfCatch(vm.bytecode) && ipOff(vm) >= 0 && ipOff(vm) <= len(vm.bytecode.Instructions)
+  assigns vm.ip
+  ensures none: !ret <==> (forall k int :: 0 <= k && k < len(vm.bytecode.CatchEntries) ==> !covers(elem(vm.bytecode.CatchEntries, k), old(ipOff(vm)), true))
+  ensures jump: ret ==> exists k int :: 0 <= k && k < len(vm.bytecode.CatchEntries) && covers(elem(vm.bytecode.CatchEntries, k), old(ipOff(vm)), true) && (forall j int :: 0 <= j && j < k ==> !covers(elem(vm.bytecode.CatchEntries, j), old(ipOff(vm)), true)) && vm.ip == wrapU64(sliceptr(vm.bytecode.Instructions) + wrapS64(elem(vm.bytecode.CatchEntries, k).JumpAddress + 4))
+  ensures stay: !ret ==> vm.ip == old(vm.ip)
+
+// the abort check: an error value exactly when the thread's aborter says so.  ShouldAbort asks
+// the context at the moment of the call; modelled as a function of the aborter (its answer may
+// differ between calls in reality, which does not matter for one call)
+func (*Thread).opCheckAbort
+  props C33
+  requires vm != nil
+  assigns nothing
+  ensures abort: value.ShouldAbort(vm.Aborter) ==> ret == value.ExecutionAbortedError.ToValue()
+  ensures run: !value.ShouldAbort(vm.Aborter) ==> ret == value.Undefined
+
 func NewCatchEntry
   props C29 C14
   assigns fresh
